@@ -24,6 +24,7 @@ The `C18_dec_…` theorems are the decoder half of C11 (restated as `C11_dec_…
 `Props/C11Decoders.lean`).
 -/
 import HopModel.Proofs.WireAlloc
+import HopModel.Proofs.TargetInfo
 import HopModel.Generated.Consts
 namespace Wire
 open Bytes
@@ -251,6 +252,44 @@ theorem C18_dec_xst_total (bs : Bytes) : ∃ s r, decXst bs = .ok (s, r) := xst_
 example : decXst [1, 9] = .ok (.conf, [9]) := rfl
 example : decXst [2, 0, 2, 0, 0, 0x6e, 0x6f, 7] = .ok (.fail [0x6e, 0x6f], [7]) := rfl
 example : decXst [2, 0, 2] = .ok (.fail [0, 0], []) := rfl
+
+/-! ## target info: a `core.URL` as the text `hop://<user>@<host>[:<port>]` (`net/url` escaping of the user name) -/
+
+/-- the escaping of user names loses nothing, whatever bytes the name is made of -/
+theorem C18_ti_user_escaping (u : Bytes) : unescUser (escUser u) = some u := unesc_esc u
+
+/-- every target (any user name; host and port of the modelled form) whose text fits the one-byte
+length comes back as it was sent -/
+theorem C18_ti_roundtrip (t : TURL) (rest : Bytes) (h : TIFits t) (hl : (tiText t).length ≤ 255) :
+    ∃ b, encTI t = .ok b ∧ decTI (b ++ rest) = .ok (t, rest) :=
+  ⟨_, encStr_ok hl, reads_ti t h hl rest⟩
+
+theorem C18_ti_reject (t : TURL) (h : ¬ (tiText t).length ≤ 255) : encTI t = .error .tooLong := encStr_err h
+
+/-- what the reader accepts is a target of the modelled form, and if its text can be written at all
+(re-escaping may lengthen it) it reads back as the same target -/
+theorem C18_ti_stable (b r : Bytes) (t : TURL) (h : decTI b = .ok (t, r)) :
+    TIFits t ∧ ∀ b', encTI t = .ok b' → ∀ r', decTI (b' ++ r') = .ok (t, r') := by
+  have hf : TIFits t := post_ti b t r h
+  refine ⟨hf, fun b' hb' r' => ?_⟩
+  by_cases hl : (tiText t).length ≤ 255
+  · have e := encStr_ok hl
+    unfold encTI at hb'
+    rw [e] at hb'
+    cases hb'
+    exact reads_ti t hf hl r'
+  · unfold encTI at hb'
+    rw [encStr_err hl] at hb'
+    cases hb'
+
+/-- `a@b` as a user name (the seeded change C18-r4-1 escaped such a name twice): the text is
+`hop://a%40b@h:22` and it parses back to the same target -/
+def tiWitness : TURL := ⟨[97, 64, 98], [104], [50, 50]⟩
+example : tiText tiWitness = [104, 111, 112, 58, 47, 47, 97, 37, 52, 48, 98, 64, 104, 58, 50, 50] := by decide
+example : TIFits tiWitness := by refine ⟨by decide, by decide, by decide, by decide⟩
+example : parseTI (tiText tiWitness) = some tiWitness :=
+  parse_text _ (by refine ⟨by decide, by decide, by decide, by decide⟩)
+example : escUser [97, 64, 98, 32, 0xc3] = [97, 37, 52, 48, 98, 37, 50, 48, 37, 67, 51] := by decide
 
 /-! ## constants of the Go source the models rely on (regenerated on every run) -/
 
